@@ -182,6 +182,7 @@ SORTS = [
     [1.5, -1],
     ["a]b", 2],
     ["é"],
+    ["\u6771\u4eac", 1],
     ['"sort":[1]'],
     ['6" nail', 2],
     ["x\\", 3],
@@ -192,7 +193,8 @@ AFTER = [None, "matched_queries", "inner_hits", "late_source", "late_source_stri
 
 
 def hit(i, sort, after):
-    h = {"_index": "idx", "_id": str(i), "_score": None, "_source": {"f": i, "took": 99, "timed_out": "x"}}
+    # (multi-byte text before the sort key: in a raw UTF-8 response byte offsets and character offsets differ)
+    h = {"_index": "idx", "_id": str(i), "_score": None, "_source": {"f": i, "took": 99, "timed_out": "x", "city": "Z\u00fcrich \u6771\u4eac \U0001F600"}}
     if sort is not None:
         h["sort"] = sort
     if after == "matched_queries":
